@@ -11,7 +11,7 @@ Import ListNotations.
 Open Scope N_scope.
 
 Inductive choice := CFresh | CPool (k : nat).            (* fresh allocation | k-th buffer of the pool *)
-Record cobj := mkco { cseq : nat; cqual : nat; cmm : option mmap }.
+Record cobj := mkco { cseq : nat; cqual : nat; cfeat : nat; cmm : option mmap; cmate : option nat }.
 Record cstate := mkcs { cregs : list (option nat); cobjs : list (option cobj) (* None: recycled *);
                         heap : list (list N); pool : list nat }.
 Definition cst0 := mkcs [] [] [] [].
@@ -33,49 +33,57 @@ Definition acquire (c : choice) (content : list N) (cs : cstate) : nat * cstate 
   end.
 
 Definition cread (cs : cstate) (co : cobj) : value :=
-  mkv (nth (cseq co) (heap cs) []) (nth (cqual co) (heap cs) []) (cmm co).
+  mkv (nth (cseq co) (heap cs) []) (nth (cqual co) (heap cs) []) (cmm co) (nth (cfeat co) (heap cs) []) (cmate co).
 
 Definition cfails (s : status) (cs : cstate) : (status * Z * Z) * cstate := ((s, (-1)%Z, (-1)%Z), cs).
 Definition cquiet (cs : cstate) : (status * Z * Z) * cstate := ((SOk, (-1)%Z, (-1)%Z), cs).
 
-(** a new object holding [v] in two acquired buffers *)
-Definition c_alloc (cs : cstate) (v : value) (c1 c2 : choice) : (status * Z * Z) * cstate :=
+(** a new object holding [v] in three acquired buffers (sequence, qualities, features: the order of Copy) *)
+Definition c_alloc (cs : cstate) (v : value) (c1 c2 c3 : choice) : (status * Z * Z) * cstate :=
   let '(b1, cs1) := acquire c1 (vseq v) cs in
   let '(b2, cs2) := acquire c2 (vqual v) cs1 in
+  let '(b3, cs3) := acquire c3 (vfeat v) cs2 in
   ((SOk, Z.of_nat (length (cregs cs)), (-1)%Z),
-   mkcs (cregs cs ++ [Some (length (cobjs cs))]) (cobjs cs ++ [Some (mkco b1 b2 (vmm v))]) (heap cs2) (pool cs2)).
+   mkcs (cregs cs ++ [Some (length (cobjs cs))]) (cobjs cs ++ [Some (mkco b1 b2 b3 (vmm v) (vmate v))]) (heap cs3) (pool cs3)).
 
 (** in place: the object's own buffers are overwritten *)
 Definition c_overwrite (cs : cstate) (ob : nat) (co : cobj) (v : value) : cstate :=
-  mkcs (cregs cs) (upd ob (Some (mkco (cseq co) (cqual co) (vmm v))) (cobjs cs))
-       (upd (cseq co) (vseq v) (upd (cqual co) (vqual v) (heap cs))) (pool cs).
+  mkcs (cregs cs) (upd ob (Some (mkco (cseq co) (cqual co) (cfeat co) (vmm v) (vmate v))) (cobjs cs))
+       (upd (cseq co) (vseq v) (upd (cqual co) (vqual v) (upd (cfeat co) (vfeat v) (heap cs)))) (pool cs).
 
 Definition c_alias (cs : cstate) (ob : nat) : (status * Z * Z) * cstate :=
   ((SOk, Z.of_nat (length (cregs cs)), first_reg ob (cregs cs) 0%Z),
    mkcs (cregs cs ++ [Some ob]) (cobjs cs) (heap cs) (pool cs)).
 
 Inductive cop :=
-| CNew (s q : list N) (m : option mmap) (c1 c2 : choice)
-| CCopy (r : nat) (c1 c2 : choice)
-| CRc (r : nat) (inplace : bool) (c1 c2 : choice)
-| CSub (r : nat) (from to : Z) (circ : bool) (c1 c2 : choice)
+| CNew (s q : list N) (m : option mmap) (f : list N) (lower : bool) (c1 c2 c3 : choice)
+| CCopy (r : nat) (c1 c2 c3 : choice)
+| CRc (r : nat) (inplace : bool) (c1 c2 c3 : choice)
+| CSub (r : nat) (from to : Z) (circ : bool) (c1 c2 c3 : choice)
 | CSetSeq (r : nat) (s : list N) (c1 : choice)                (* SetSequence: a new buffer, the old one is dropped *)
 | CSetQual (r : nat) (q : list N) (c1 : choice)               (* SetQualities: old buffer to the pool, then a new one *)
+| CSetFeat (r : nat) (f : list N) (c1 : choice)               (* SetFeatures: old buffer to the pool, the caller's buffer is adopted *)
 | CPoke (r : nat) (i b : N)
 | CPokeQ (r : nat) (i b : N)
+| CPokeF (r : nat) (i b : N)
 | CSetMm (r : nat) (m : mmap)
 | CPokeMm (r : nat) (k : key) (p : Z)
-| CJoin (r r2 : nat) (inplace : bool) (c1 c2 : choice)   (* Join: appends in place, or to a copy *)
+| CWrite (r : nat) (s : list N)                               (* Write*: appends through the object's own buffer *)
+| CJoin (r r2 : nat) (inplace : bool) (c1 c2 c3 : choice)     (* Join: appends in place, or to a copy *)
+| CPair (r r2 : nat)
+| CUnpair (r : nat)
 | CRecycle (r : nat)
 | CChurn (k : nat) (junk : list N).                           (* scribble over the k-th pooled buffer *)
 
 Definition abs_op (c : cop) : op :=
   match c with
-  | CNew s q m _ _ => ONew s q m | CCopy r _ _ => OCopy r | CRc r i _ _ => ORc r i
-  | CSub r f t c _ _ => OSub r f t c | CSetSeq r s _ => OSetSeq r s | CSetQual r q _ => OSetQual r q
-  | CPoke r i b => OPoke r i b | CPokeQ r i b => OPokeQ r i b | CSetMm r m => OSetMm r m
+  | CNew s q m f l _ _ _ => ONew s q m f l | CCopy r _ _ _ => OCopy r | CRc r i _ _ _ => ORc r i
+  | CSub r f t c _ _ _ => OSub r f t c | CSetSeq r s _ => OSetSeq r s | CSetQual r q _ => OSetQual r q
+  | CSetFeat r f _ => OSetFeat r f
+  | CPoke r i b => OPoke r i b | CPokeQ r i b => OPokeQ r i b | CPokeF r i b => OPokeF r i b | CSetMm r m => OSetMm r m
   | CRecycle r => ORecycle r | CChurn _ _ => ONop
-  | CPokeMm r k p => OPokeMm r k p | CJoin r r2 i _ _ => OJoin r r2 i
+  | CPokeMm r k p => OPokeMm r k p | CJoin r r2 i _ _ _ => OJoin r r2 i
+  | CWrite r s => OWrite r s | CPair r r2 => OPair r r2 | CUnpair r => OUnpair r
   end.
 
 Definition con (cs : cstate) (r : nat) (f : nat -> cobj -> (status * Z * Z) * cstate) : (status * Z * Z) * cstate :=
@@ -84,40 +92,59 @@ Definition con (cs : cstate) (r : nat) (f : nat -> cobj -> (status * Z * Z) * cs
   | Some ob => match nth_error (cobjs cs) ob with Some (Some co) => f ob co | _ => cfails SErr cs end
   end.
 
+(** write a (non-buffer) field of a live object, if the object is live *)
+Definition c_setmate (cs : cstate) (ob : nat) (m : option nat) : cstate :=
+  match nth_error (cobjs cs) ob with
+  | Some (Some co) => c_overwrite cs ob co (with_mate (cread cs co) m)
+  | _ => cs
+  end.
+
 Definition cstep (cs : cstate) (o : cop) : (status * Z * Z) * cstate :=
   match o with
-  | CNew s q m c1 c2 => c_alloc cs (mkv (to_lower s) q m) c1 c2
-  | CCopy r c1 c2 => con cs r (fun _ co => c_alloc cs (cread cs co) c1 c2)
-  | CRc r inplace c1 c2 => con cs r (fun ob co =>
+  | CNew s q m f lower c1 c2 c3 => c_alloc cs (mkv (if lower then to_lower s else s) q m f None) c1 c2 c3
+  | CCopy r c1 c2 c3 => con cs r (fun _ co => c_alloc cs (unpaired (cread cs co)) c1 c2 c3)
+  | CRc r inplace c1 c2 c3 => con cs r (fun ob co =>
       match rc_val (cread cs co) with
-      | Ok v' => if inplace then c_alias (c_overwrite cs ob co v') ob else c_alloc cs v' c1 c2
+      | Ok v' => if inplace then c_alias (c_overwrite cs ob co v') ob else c_alloc cs (unpaired v') c1 c2 c3
       | Err => cfails SErr cs | Panic => cfails SPanic cs end)
-  | CSub r from to circ c1 c2 => con cs r (fun _ co =>
+  | CSub r from to circ c1 c2 c3 => con cs r (fun _ co =>
       match sub_val (cread cs co) from to circ with
-      | Ok v' => c_alloc cs v' c1 c2 | Err => cfails SErr cs | Panic => cfails SPanic cs end)
+      | Ok v' => c_alloc cs v' c1 c2 c3 | Err => cfails SErr cs | Panic => cfails SPanic cs end)
   | CSetSeq r s c1 => con cs r (fun ob co =>
       let '(b, cs1) := acquire c1 (to_lower s) cs in
-      cquiet (mkcs (cregs cs1) (upd ob (Some (mkco b (cqual co) (cmm co))) (cobjs cs1)) (heap cs1) (pool cs1)))
+      cquiet (mkcs (cregs cs1) (upd ob (Some (mkco b (cqual co) (cfeat co) (cmm co) (cmate co))) (cobjs cs1)) (heap cs1) (pool cs1)))
   | CSetQual r q c1 => con cs r (fun ob co =>
       (* the object gives its quality buffer up (it goes to the pool) before it acquires the new one *)
       let cs0 := mkcs (cregs cs) (upd ob None (cobjs cs)) (heap cs) (cqual co :: pool cs) in
       let '(b, cs1) := acquire c1 q cs0 in
-      cquiet (mkcs (cregs cs1) (upd ob (Some (mkco (cseq co) b (cmm co))) (cobjs cs1)) (heap cs1) (pool cs1)))
+      cquiet (mkcs (cregs cs1) (upd ob (Some (mkco (cseq co) b (cfeat co) (cmm co) (cmate co))) (cobjs cs1)) (heap cs1) (pool cs1)))
+  | CSetFeat r f c1 => con cs r (fun ob co =>
+      let cs0 := mkcs (cregs cs) (upd ob None (cobjs cs)) (heap cs) (cfeat co :: pool cs) in
+      let '(b, cs1) := acquire c1 f cs0 in
+      cquiet (mkcs (cregs cs1) (upd ob (Some (mkco (cseq co) (cqual co) b (cmm co) (cmate co))) (cobjs cs1)) (heap cs1) (pool cs1)))
   | CPoke r i b => con cs r (fun ob co =>
-      let v := cread cs co in cquiet (c_overwrite cs ob co (mkv (upd (N.to_nat i) b (vseq v)) (vqual v) (vmm v))))
+      let v := cread cs co in cquiet (c_overwrite cs ob co (mkv (upd (N.to_nat i) b (vseq v)) (vqual v) (vmm v) (vfeat v) (vmate v))))
   | CPokeQ r i b => con cs r (fun ob co =>
-      let v := cread cs co in cquiet (c_overwrite cs ob co (mkv (vseq v) (upd (N.to_nat i) b (vqual v)) (vmm v))))
+      let v := cread cs co in cquiet (c_overwrite cs ob co (mkv (vseq v) (upd (N.to_nat i) b (vqual v)) (vmm v) (vfeat v) (vmate v))))
+  | CPokeF r i b => con cs r (fun ob co =>
+      let v := cread cs co in cquiet (c_overwrite cs ob co (mkv (vseq v) (vqual v) (vmm v) (upd (N.to_nat i) b (vfeat v)) (vmate v))))
   | CSetMm r m => con cs r (fun ob co =>
-      let v := cread cs co in cquiet (c_overwrite cs ob co (mkv (vseq v) (vqual v) (Some m))))
+      let v := cread cs co in cquiet (c_overwrite cs ob co (mkv (vseq v) (vqual v) (Some m) (vfeat v) (vmate v))))
   | CPokeMm r k p => con cs r (fun ob co =>
-      let v := cread cs co in cquiet (c_overwrite cs ob co (mkv (vseq v) (vqual v) (option_map (mm_set k p) (vmm v)))))
-  | CJoin r r2 inplace c1 c2 => con cs r (fun ob co => con cs r2 (fun _ co2 =>
-      let v := cread cs co in let v2 := cread cs co2 in
-      let v' := mkv (vseq v ++ vseq v2) (vqual v) (vmm v) in
-      if inplace then c_alias (c_overwrite cs ob co v') ob else c_alloc cs v' c1 c2))
+      let v := cread cs co in cquiet (c_overwrite cs ob co (mkv (vseq v) (vqual v) (option_map (mm_set k p) (vmm v)) (vfeat v) (vmate v))))
+  | CWrite r s => con cs r (fun ob co =>
+      let v := cread cs co in cquiet (c_overwrite cs ob co (mkv (vseq v ++ s) (vqual v) (vmm v) (vfeat v) (vmate v))))
+  | CJoin r r2 inplace c1 c2 c3 => con cs r (fun ob co => con cs r2 (fun _ co2 =>
+      let v' := join_val (cread cs co) (cread cs co2) in
+      if inplace then c_alias (c_overwrite cs ob co v') ob else c_alloc cs (unpaired v') c1 c2 c3))
+  | CPair r r2 => con cs r (fun ob co => con cs r2 (fun ob2 _ =>
+      cquiet (c_setmate (c_overwrite cs ob co (with_mate (cread cs co) (Some ob2))) ob2 (Some ob))))
+  | CUnpair r => con cs r (fun ob co =>
+      let cs1 := match cmate co with Some m => c_setmate cs m None | None => cs end in
+      cquiet (c_setmate cs1 ob None))
   | CRecycle r => con cs r (fun ob co =>
       cquiet (mkcs (map (fun x => match x with Some o' => if Nat.eqb o' ob then None else x | None => None end) (cregs cs))
-                   (upd ob None (cobjs cs)) (heap cs) (cseq co :: cqual co :: pool cs)))
+                   (upd ob None (cobjs cs)) (heap cs) (cseq co :: cfeat co :: cqual co :: pool cs)))
   | CChurn k junk => match nth_error (pool cs) k with
                      | Some b => cquiet (mkcs (cregs cs) (cobjs cs) (upd b junk (heap cs)) (pool cs))
                      | None => cquiet cs end
@@ -141,16 +168,24 @@ Definition cval_of (cs : cstate) (r : nat) : option value :=
 Definition csetqual_orig (cs : cstate) (r : nat) (q : list N) (c1 : choice) : cstate :=
   snd (con cs r (fun ob co =>
       let '(b, cs1) := acquire c1 q cs in
-      cquiet (mkcs (cregs cs1) (upd ob (Some (mkco (cseq co) b (cmm co))) (cobjs cs1)) (heap cs1) (b :: pool cs1)))).
+      cquiet (mkcs (cregs cs1) (upd ob (Some (mkco (cseq co) b (cfeat co) (cmm co) (cmate co))) (cobjs cs1)) (heap cs1) (b :: pool cs1)))).
+
+(** the pre-pool-fix SetFeatures (cap >= 300): the pool keeps the address of the live field, i.e. the ADOPTED
+    buffer of the object is (also) in the pool; with the repaired pool (own header) it is the old buffer *)
+Definition csetfeat_orig (cs : cstate) (r : nat) (f : list N) (c1 : choice) : cstate :=
+  snd (con cs r (fun ob co =>
+      let '(b, cs1) := acquire c1 f cs in
+      cquiet (mkcs (cregs cs1) (upd ob (Some (mkco (cseq co) (cqual co) b (cmm co) (cmate co))) (cobjs cs1)) (heap cs1) (b :: pool cs1)))).
 
 (** ---------------- correspondence of the ownership model itself: the same histories the real objects
     ran, with hand-out choices drawn at random by the check, must read what the implementation answered *)
-Definition csnapshot (cs : cstate) : list (option value) :=
+Definition csnapshot (cs : cstate) : list (option oval) :=
   map (fun r => match r with
                 | None => None
-                | Some o => match nth_error (cobjs cs) o with Some (Some co) => Some (cread cs co) | _ => None end
+                | Some o => match nth_error (cobjs cs) o with
+                            | Some (Some co) => Some (cread cs co, mate_obs (cregs cs) (cread cs co)) | _ => None end
                 end) (cregs cs).
-Record ccase := mkcc { ccops : list cop; ccsteps : list (status * Z * Z); ccfinal : list (option value) }.
+Record ccase := mkcc { ccops : list cop; ccsteps : list (status * Z * Z); ccfinal : list (option oval) }.
 Definition ccase_ok (c : ccase) : bool :=
   let '(rs, cs) := crun cst0 (ccops c) in
   list_eqb stepobs_eqb rs (ccsteps c) && list_eqb ovalue_eqb (csnapshot cs) (ccfinal c).
